@@ -422,6 +422,37 @@ impl<MutexType: RawMutex, T: Clone> ChannelReceiveAccess<T>
     }
 }
 
+#[cfg(all(futures_intrusive_verif, feature = "alloc"))]
+impl<MutexType: RawMutex, T> GenericStateBroadcastChannel<MutexType, T>
+where
+    T: Clone,
+{
+    /// Read-only snapshot of the internal state for the verification harness
+    pub fn verif_snapshot(
+        &self,
+        is_live: crate::verif::IsLive<'_>,
+    ) -> crate::verif::Snapshot {
+        let state = self.inner.lock();
+        let mut snap = crate::verif::Snapshot::default();
+        snap.scalars.push(("is_closed", state.is_closed as u64));
+        snap.scalars.push(("state_id", state.state_id.0));
+        snap.scalars.push(("has_value", state.value.is_some() as u64));
+        snap.queues.push(crate::verif::snap_list(
+            "waiters",
+            &state.waiters,
+            is_live,
+            &|e: &RecvWaitQueueEntry| {
+                let code = match e.state {
+                    RecvPollState::Unregistered => 0,
+                    RecvPollState::Registered => 1,
+                };
+                (code, e.task.is_some(), e.state_id.0)
+            },
+        ));
+        snap
+    }
+}
+
 // Export a non thread-safe version using NoopLock
 
 /// A [`GenericStateBroadcastChannel`] which is not thread-safe.
@@ -630,6 +661,8 @@ mod if_alloc {
             T: Clone,
         {
             fn clone(&self) -> Self {
+                #[cfg(futures_intrusive_verif)]
+                crate::verif::sched_point("state::handle_count_add");
                 let old_size =
                     self.inner.senders.fetch_add(1, Ordering::Relaxed);
                 if old_size > (core::isize::MAX) as usize {
@@ -647,10 +680,14 @@ mod if_alloc {
             T: Clone,
         {
             fn drop(&mut self) {
+                #[cfg(futures_intrusive_verif)]
+                crate::verif::sched_point("state::handle_count_sub");
                 if self.inner.senders.fetch_sub(1, Ordering::Release) != 1 {
                     return;
                 }
                 core::sync::atomic::fence(Ordering::Acquire);
+                #[cfg(futures_intrusive_verif)]
+                crate::verif::sched_point("state::last_handle_before_close");
                 // Close the channel, before last sender gets destroyed
                 // TODO: We could potentially avoid this, if no receiver is left
                 self.inner.channel.close();
@@ -663,6 +700,8 @@ mod if_alloc {
             T: Clone,
         {
             fn clone(&self) -> Self {
+                #[cfg(futures_intrusive_verif)]
+                crate::verif::sched_point("state::handle_count_add");
                 let old_size =
                     self.inner.receivers.fetch_add(1, Ordering::Relaxed);
                 if old_size > (core::isize::MAX) as usize {
@@ -680,10 +719,14 @@ mod if_alloc {
             T: Clone,
         {
             fn drop(&mut self) {
+                #[cfg(futures_intrusive_verif)]
+                crate::verif::sched_point("state::handle_count_sub");
                 if self.inner.receivers.fetch_sub(1, Ordering::Release) != 1 {
                     return;
                 }
                 core::sync::atomic::fence(Ordering::Acquire);
+                #[cfg(futures_intrusive_verif)]
+                crate::verif::sched_point("state::last_handle_before_close");
                 // Close the channel, before last receiver gets destroyed
                 // TODO: We could potentially avoid this, if no sender is left
                 self.inner.channel.close();
@@ -770,6 +813,68 @@ mod if_alloc {
                 state_id: StateId,
             ) -> Option<(StateId, T)> {
                 self.inner.channel.try_receive(state_id)
+            }
+        }
+
+        /// A handle for the verification harness which can take snapshots of
+        /// the shared state without counting as a sender or receiver.
+        #[cfg(futures_intrusive_verif)]
+        pub struct VerifStateObserver<MutexType, T>
+        where
+            MutexType: RawMutex,
+            T: Clone + 'static,
+        {
+            inner: alloc::sync::Arc<
+                GenericStateBroadcastChannelSharedState<MutexType, T>,
+            >,
+        }
+
+        #[cfg(futures_intrusive_verif)]
+        impl<MutexType, T> core::fmt::Debug for VerifStateObserver<MutexType, T>
+        where
+            MutexType: RawMutex,
+            T: Clone + 'static,
+        {
+            fn fmt(&self, f: &mut core::fmt::Formatter) -> core::fmt::Result {
+                f.debug_struct("VerifStateObserver").finish()
+            }
+        }
+
+        #[cfg(futures_intrusive_verif)]
+        impl<MutexType, T> VerifStateObserver<MutexType, T>
+        where
+            MutexType: RawMutex,
+            T: Clone + 'static,
+        {
+            /// Read-only snapshot of the internal state
+            pub fn verif_snapshot(
+                &self,
+                is_live: crate::verif::IsLive<'_>,
+            ) -> crate::verif::Snapshot {
+                let mut snap = self.inner.channel.verif_snapshot(is_live);
+                snap.scalars.push((
+                    "senders",
+                    self.inner.senders.load(Ordering::SeqCst) as u64,
+                ));
+                snap.scalars.push((
+                    "receivers",
+                    self.inner.receivers.load(Ordering::SeqCst) as u64,
+                ));
+                snap
+            }
+        }
+
+        #[cfg(futures_intrusive_verif)]
+        impl<MutexType, T> GenericStateSender<MutexType, T>
+        where
+            MutexType: RawMutex,
+            T: Clone + 'static,
+        {
+            /// Returns an observer for the verification harness
+            pub fn verif_observer(&self) -> VerifStateObserver<MutexType, T> {
+                VerifStateObserver {
+                    inner: self.inner.clone(),
+                }
             }
         }
 
